@@ -58,8 +58,20 @@ def rand_start(rng, small=False):
     return {"segs": segs, "closed": closed}
 
 
+def rand_nodelist_start(rng):
+    """a closed outline given as a node list that does not repeat its start node, read from a random position (also an off-curve one);
+    handles are often retracted onto on-curve nodes — including the LAST handle of the closing curve onto the start node"""
+    from . import c08
+    segs = c08.rand_chain(rng, True, fam="int", maxn=5)
+    if len(segs[-1]) > 2 and rng.random() < 0.5:
+        segs[-1] = segs[-1][:-2] + [segs[0][0], segs[-1][-1]]        # closing curve's last handle on the start node
+    nl = c08.nodes_of(segs)
+    r = rng.randrange(len(nl))
+    return {"segs": segs, "nodes": nl[r:] + nl[:r]}
+
+
 def rand_history(rng, maxlen):
-    hist = [("new", rand_start(rng))]
+    hist = [("new", rand_start(rng))] if rng.random() < 0.8 else [("newnl", rand_nodelist_start(rng))]
     npaths = 1
     if rng.random() < 0.3:
         # alias hunting: fractional coordinates, a copy-producing operation, then in-place operations on either of the two paths;
@@ -166,6 +178,19 @@ class Run:
             self.cmds.append("new %d %s" % (step[1]["closed"], tok_vals(step[1]["segs"])))
             self.dumps.append(self.dump())
             return
+        if op == "newnl":
+            # conversion from the node-list representation: a closed path must come out as a chain that ends where it starts and has the
+            # outline's segments (as a cyclic sequence)
+            from beziers.path import BezierPath
+            from beziers.path.representations.Nodelist import Node
+            spec = step[1]
+            p = BezierPath.fromNodelist([Node(q[0], q[1], t) for q, t in spec["nodes"]], closed=True)
+            got = vals_of(p)
+            want = [list(map(tuple, sg)) for sg in spec["segs"]]
+            if not any(got == want[r:] + want[:r] for r in range(len(want))):
+                self.fail("fromNodelist (closed): the segments %r are not a cyclic rotation of the outline's %r" % (got, want))
+            self.check_chain(p, "fromNodelist")
+            return self.apply(("new", {"segs": got if got else want, "closed": True}))
         if op == "newat":
             # a new open path translated so that its start (mode 0) or its end (mode 1) is exactly the current end of path step[1]
             q = self.paths[step[1]]
